@@ -62,6 +62,10 @@ CHECKS = {
          "5 ellipsoids x 13 latitudes (poles, 1e-6, 0) x {int, float, Angle} x 4 heights for the identities (1e-12); all 324 ordered point pairs x 3 ellipsoids for symmetry, coincidence, equator/meridian arcs (Simpson integral of rm) and the great-circle bound; 930 parallax configurations x 6 distances 1e-3..1e3 AU for the horizontal-parallax bound and the 1/distance decay.",
          "Real-valued quantifier: finite lattice; the great-circle bound is applied as 0.6 % for the built-in ellipsoids and 2 f for user ellipsoids.",
          "DESIGN.md 3/C18"),
+ "C07": (EX, "exhaustive epoch lattice x 8 planets with library-against-itself oracles (mean elements + Kepler, independent re-summation of the VSOP87 tables with exact powers of t), seam probes located by bisection, step walks over whole orbits, one-second continuity probes",
+         "Quick: 453 epochs (every 40th year -2000..4000, 3 phases) x 8 planets x 10 clauses, the 0/360 longitude seam of every planet at 6 eras probed at +-1e-7..1e-3 day and at the FK5/aberration offsets, 720-step walks over one orbit at 2 eras, 185 boundary instants x 8 planets at one-second steps. Thorough: every 10 days over the whole range (219 146 epochs x 8) and daily walks over two orbits at 4 eras.",
+         "Real-valued quantifier: lattice of epochs; oracles use the library's own orbital elements and kepler_equation (C11) and the module's own tables; the direct-summation allowance for Mercury's longitude is stated in DESIGN.md.",
+         "DESIGN.md 3/C07"),
 }
 
 NOT_YET = {}
